@@ -28,11 +28,17 @@ func b01(b bool) string {
 var tagKeys = []string{"bexpr", "json", "pointer", "alt", "étiq"}
 
 func typeName(t reflect.Type) string {
+	// a struct type is known to the model by its name only: the names of the struct types that are NOT
+	// comparable carry the suffix "#nc" (GoType.comparable in lean/Bexpr/Go/Val.lean)
+	nc := ""
+	if t.Kind() == reflect.Struct && !t.Comparable() {
+		nc = "#nc"
+	}
 	if t.Name() == "" {
 		if t.Kind() == reflect.Struct {
 			h := fnv.New32a()
 			h.Write([]byte(t.String()))
-			return fmt.Sprintf("anon%08x", h.Sum32())
+			return fmt.Sprintf("anon%08x", h.Sum32()) + nc
 		}
 		return "-"
 	}
@@ -40,7 +46,16 @@ func typeName(t reflect.Type) string {
 		// predeclared
 		return "-"
 	}
-	return strings.ReplaceAll(t.String(), " ", "_")
+	return strings.ReplaceAll(t.String(), " ", "_") + nc
+}
+
+// serKey serialises a map key.  A key held in a slot of NON-EMPTY interface type (map[error]V) is
+// opaque to the model, nil or not: no path part is ever converted to such a type.
+func serKey(k reflect.Value) string {
+	if k.Kind() == reflect.Interface && k.Type().NumMethod() != 0 {
+		return fmt.Sprintf("( O interface %s %s )", typeName(k.Type()), b01(k.IsNil()))
+	}
+	return serVal(k)
 }
 
 func kindName(k reflect.Kind) string { return k.String() }
@@ -116,10 +131,13 @@ func serVal(v reflect.Value) string {
 	case reflect.Map:
 		type kv struct{ k, v string }
 		var es []kv
-		for _, k := range v.MapKeys() {
-			es = append(es, kv{serVal(k), serVal(v.MapIndex(k))})
+		// MapRange, not MapKeys + MapIndex: an entry under a NaN key cannot be looked up
+		for it := v.MapRange(); it.Next(); {
+			es = append(es, kv{serKey(it.Key()), serVal(it.Value())})
 		}
-		sort.Slice(es, func(i, j int) bool { return es[i].k < es[j].k })
+		// keys whose identity the wire does not carry (pointers, complex numbers, opaque interface keys) may
+		// print alike: break ties by the value, so that the wire form is a function of the datum
+		sort.Slice(es, func(i, j int) bool { return es[i].k < es[j].k || (es[i].k == es[j].k && es[i].v < es[j].v) })
 		var sb strings.Builder
 		fmt.Fprintf(&sb, "( M %s %s %s %s", typeName(t), serType(t.Key()), serType(t.Elem()), b01(v.IsNil()))
 		for _, e := range es {
